@@ -302,6 +302,50 @@ func c28(r *core.Run) {
 		}
 	}
 	r.Floor("R2.errflow", 45)
+
+	// ---- R3 recover sites that absorb a host failure (ExternalError arm, or an absorbing default) inside execution code
+	boundary := map[string]string{
+		"runtime.Recover":                        "runtime boundary: converts to the returned error (carries the host failure)",
+		"interpreter.(Interpreter).RecoverErrors": "interpreter boundary: hands the value to the error handler",
+		"bbq/vm.(VM).RecoverErrors":              "VM boundary: hands the value to the error handler",
+		"stdlib.nativeAccountContractsTryUpdateFunction": "documented exception of the property (contracts.tryUpdate)",
+		"runtime.(REPL).Accept":                  "REPL tooling boundary, reports the error",
+		"pretty.(ErrorPrettyPrinter).PrettyPrintError": "printer, not on an execution path",
+		"sema.(Checker).Check":                   "checker boundary: returns the error",
+		"parser.ParseTokenStream":                "parser boundary: returns the error",
+		"parser/lexer.(lexer).run":               "lexer boundary: error token",
+		"parser.defineLessThanOrTypeArgumentsExpression": "speculative parse replay; no host call inside the parser",
+		"old_parser.defineLessThanOrTypeArgumentsExpression": "speculative parse replay; no host call inside the parser",
+		"old_parser/lexer.(lexer).run":           "lexer boundary: error token",
+		"encoding/ccf.(Decoder).Decode":          "codec boundary: returns the error",
+		"encoding/ccf.(Encoder).Encode":          "codec boundary: returns the error",
+		"encoding/json.(Decoder).Decode":         "codec boundary: returns the error",
+		"encoding/json.(Encoder).Encode":         "codec boundary: returns the error",
+		"runtime.UserPanicToError":               "absorbs only user errors (errors.As UserError); ExternalError is re-panicked in the type switch",
+	}
+	for _, s := range w.RecoverSites() {
+		k := core.SSAKey(s.Decl)
+		absorbs := false
+		for _, a := range s.Arms {
+			if a == "errors.ExternalError:absorb" || a == "default:absorb" || a == "error:absorb" {
+				absorbs = true
+			}
+		}
+		if !absorbs {
+			r.OK("R3.recover", k, s.Call.Pos(), "cannot absorb an ExternalError: "+s.Summary())
+			continue
+		}
+		if isLatentSaturating(k) {
+			r.OK("R3.recover", k, s.Call.Pos(), "LATENT saturating wrapper (undeclared member, arithmetic only, no host call below it)")
+			continue
+		}
+		if why, ok := boundary[k]; ok {
+			r.OK("R3.recover", k, s.Call.Pos(), "reviewed: "+why)
+			continue
+		}
+		r.Bad("R3.recover", k, s.Call.Pos(), "recover() absorbs an ExternalError (host failure) and execution continues: "+s.Summary())
+	}
+	r.Floor("R3.recover", 30)
 }
 
 // forwardsParam: value a (inside closure built by mc) is the parameter #pi of fn (directly, or a load of the
